@@ -488,6 +488,8 @@ def gen_project(rng):
 
 
 def run(ctx):
+    from checks import isolate
+    isolate.enter(ctx)
     bindir = core.cargo_build("h_icu")
     ok, problems_audit = core.coq_audit(ctx, PROPS, THEOREMS)
     okc, logc = core.coq_build(["theories/Build/IcuKeysCheck.vo"])
@@ -595,6 +597,8 @@ def run(ctx):
 
 
 def replay(ctx, path):
+    from checks import isolate
+    isolate.enter(ctx)
     obj = json.load(open(path))
     fi = obj.get("failing_input") or obj.get("first_disagreeing_input")
     print(json.dumps({k: v for k, v in obj.items() if k not in ("more",)}, indent=1, ensure_ascii=False)[:6000])
